@@ -95,28 +95,39 @@ pub enum FaultKind {
 
 pub struct FaultStats {
     pub calls: Cell<u64>,
+    /// 0-based index (counting reads, writes and seeks) of the call that fails; u64::MAX = never
+    pub at: Cell<u64>,
     pub fired: Cell<bool>,
     /// what kind of call the fault hit: 'r', 'w', 's'
     pub fired_on: Cell<u8>,
 }
 
-/// Fails exactly one call: the one with 0-based index `at` (counting reads, writes and seeks).
+impl FaultStats {
+    /// re-arm: the call with index `rel` counted from now fails
+    pub fn arm(&self, rel: u64) {
+        self.calls.set(0);
+        self.at.set(rel);
+        self.fired.set(false);
+        self.fired_on.set(0);
+    }
+}
+
+/// Fails exactly one call: the one with index `at` (counting reads, writes and seeks).
 pub struct FaultStream<T> {
     pub inner: T,
-    pub at: u64, // u64::MAX = never
     pub kind: FaultKind,
     pub stats: Rc<FaultStats>,
 }
 
 impl<T> FaultStream<T> {
     pub fn new(inner: T, at: u64, kind: FaultKind) -> (Self, Rc<FaultStats>) {
-        let stats = Rc::new(FaultStats { calls: Cell::new(0), fired: Cell::new(false), fired_on: Cell::new(0) });
-        (FaultStream { inner, at, kind, stats: stats.clone() }, stats)
+        let stats = Rc::new(FaultStats { calls: Cell::new(0), at: Cell::new(at), fired: Cell::new(false), fired_on: Cell::new(0) });
+        (FaultStream { inner, kind, stats: stats.clone() }, stats)
     }
     fn hit(&self, on: u8) -> bool {
         let c = self.stats.calls.get();
         self.stats.calls.set(c + 1);
-        if c == self.at {
+        if c == self.stats.at.get() {
             self.stats.fired.set(true);
             self.stats.fired_on.set(on);
             true
